@@ -43,7 +43,7 @@ type Profile struct {
 	HTTP        bool   `json:",omitempty"` // HTTP GET / HEAD / POST requests (temporary connections) besides the WebSocket clients
 	ResetFaults bool   `json:",omitempty"` // get requests for resources that did not change silently may fail (re-fetches of resets included)
 	Legacy      bool   `json:",omitempty"` // some clients negotiate protocol 1.2.0 / 1.1.1 or send no version request
-	Once        bool   `json:",omitempty"` // the fragment modelled by Comp/Core.v: subscribe requests only, one per client and resource; the state the service starts from is noted in the trace
+	Once        bool   `json:",omitempty"` // the fragment modelled by Comp/Core.v: one resource without references, verdicts fixed per connection, no request after a denial; the state the service starts from is noted in the trace
 	Scenario    string `json:",omitempty"` // phase-structured histories (scenario.go) instead of independent random stimuli
 }
 
@@ -347,6 +347,14 @@ func (x *Explorer) answerFor(q *gw.Req) gw.Action {
 		}
 		json.Unmarshal(q.Payload, &pl)
 		pol := x.policy(string(pl.Token), rest)
+		if x.P.Once {
+			// the fragment of Comp/Core.v: the verdict is drawn per connection
+			var pc struct {
+				CID string `json:"cid"`
+			}
+			json.Unmarshal(q.Payload, &pc)
+			pol = x.policy("/"+pc.CID, rest)
+		}
 		switch {
 		case fault && x.R.Intn(2) == 0:
 			a.Err, a.Abs = "timeout", "err\tsystem.timeout"
@@ -567,6 +575,7 @@ func (x *Explorer) clientFrame(c *gw.Client) (gw.Action, bool) {
 	}
 	key := c.Label + " " + rid
 	if x.P.Once {
+		// the fragment of Comp/Core.v: a connection whose request was denied asks no more (its verdict is fixed per connection)
 		if x.onceDone == nil {
 			x.onceDone = map[string]bool{}
 		}
@@ -574,7 +583,9 @@ func (x *Explorer) clientFrame(c *gw.Client) (gw.Action, bool) {
 			x.nextID[c.Label]--
 			return gw.Action{}, false
 		}
-		x.onceDone[key] = true
+		if pol := x.policy("/"+x.Run.W.CIDs()[c.Label], rid); pol.deny != 0 {
+			x.onceDone[key] = true
+		}
 	}
 	kinds := []string{"subscribe", "subscribe", "subscribe"}
 	if x.P.Unsub {
@@ -593,9 +604,12 @@ func (x *Explorer) clientFrame(c *gw.Client) (gw.Action, bool) {
 	var frame string
 	switch kind {
 	case "unsubscribe":
-		if x.R.Intn(4) == 0 {
+		if k := x.R.Intn(8); k < 2 {
 			cnt := x.R.Intn(4) - 1
 			frame = fmt.Sprintf(`{"id":%d,"method":"unsubscribe.%s","params":{"count":%d}}`, id, rid, cnt)
+		} else if k == 2 {
+			// a params object that leaves the count out: the default count 1 applies
+			frame = fmt.Sprintf(`{"id":%d,"method":"unsubscribe.%s","params":%s}`, id, rid, x.R.Pick(`{}`, `{"count":null}`, `{"foo":"bar"}`, `null`))
 		} else {
 			frame = fmt.Sprintf(`{"id":%d,"method":"unsubscribe.%s"}`, id, rid)
 		}
